@@ -765,7 +765,7 @@ def c08_20(ctx):
 
 def c08_21(ctx):
     """master key from seed, evaluated with the standard library's HMAC-SHA512: for seeds of 16, 32 and 64 bytes whose first / last bytes are
-    zero, ASCII white space (0x09-0x0d, 0x20), 0xff or ordinary, and for every network, the master secret is the left half and the chain code
+    zero, ASCII white space (0x09-0x0d, 0x20), 0xff or ordinary, for one seed of every other byte length from 17 to 63, and for every network, the master secret is the left half and the chain code
     the right half of HMAC-SHA512("Bitcoin seed", seed) over ALL the seed bytes; depth, parent fingerprint and child number are zero and the
     network / version arguments are passed on"""
     import hashlib
@@ -787,6 +787,8 @@ def c08_21(ctx):
                 if length != 16 and (first, last) not in ((0x41, 0x20), (0x20, 0x0A), (0x00, 0x00)):
                     continue
                 seeds.append(bytes([first]) + body + bytes([last]))
+    # BIP32 takes a seed of any length from 128 to 512 bits: one ordinary seed of every byte length in between (odd lengths among them)
+    seeds += [bytes((i * 31 + length) & 255 or 7 for i in range(length)) for length in range(17, 64) if length != 32]
     n = 0
     try:
         for seed in seeds:
